@@ -115,6 +115,45 @@ func checkC01(c *Ctx) {
 		}
 	}
 
+	// ---- cold storage: what is minted is exactly the coin that is scheduled (and burnt) with it -----------
+	for _, m := range mints {
+		if m.role != "cold-storage" {
+			continue
+		}
+		minted := outerValue(m.e.Bank.Coins, m.e.Chain)
+		if call, isCall := minted.(*ssa.Call); isCall && len(call.Call.Args) == 1 {
+			// sdk.NewCoins(coin)
+			if d, _ := ana.Describe(&call.Call); d.Name == "NewCoins" {
+				minted = outerValue(call.Call.Args[0], m.e.Chain)
+			}
+		}
+		ok := false
+		nIns := 0
+		ana.Calls(m.f, func(site ssa.CallInstruction, d ana.CalleeDesc) {
+			isInsert := false
+			for _, callee := range p.Callees(site) {
+				if hasEff(c.Effects(callee), "bank", "BurnCoins", "") {
+					isInsert = true
+				}
+			}
+			if !isInsert {
+				return
+			}
+			nIns++
+			for _, a := range site.Common().Args {
+				if n := ana.NamedOf(a.Type()); n != nil && n.Obj().Name() == "Coin" {
+					// the first coin argument is the transferred amount
+					if a == minted || sameObject(a, minted) {
+						ok = true
+					}
+					break
+				}
+			}
+		})
+		r.Check(ok && nIns == 1, "C01.mint-sites", "cold-storage-amount:"+fname(m.f), c.pos(m.e.At), "the cold-storage mint is the single coin that the same iteration schedules for the external chain",
+			"the coins minted for a cold-storage transfer are not exactly the coin scheduled (and burnt) in the same step: each step mints something else than it burns, the difference stays in circulation without collateral")
+	}
+
 	// ---- C01.deposit-amount -----------------------------------------------------
 	r.Min("C01.deposit-amount", 3)
 	for _, m := range mints {
@@ -192,6 +231,7 @@ func checkC01(c *Ctx) {
 
 	// ---- C01.event-atomic -----------------------------------------------------------
 	r.Min("C01.event-atomic", 2)
+	c.checkRecoverAtomic("C01.event-atomic")
 	for _, f := range sortedFuncs(reach) {
 		if c.isProcessFn(f, "mhub2") || c.isProcessFn(f, "oracle") {
 			c.checkEventAtomic("C01.event-atomic", f)
@@ -223,11 +263,11 @@ func checkC01(c *Ctx) {
 		return false
 	})
 	c.include("amounts", "C11", rulesIn("C11.convert-truncates", "C11.debit-identity", "C11.commission-form"))
-	c.include("amounts", "C19", rulesIn("C19.clamp", "C19.remainder", "C19.prorata"))
+	c.include("amounts", "C19", rulesIn("C19.clamp", "C19.remainder", "C19.prorata", "C19.units", "C19.record"))
 
 	// ---- C01.lock-equals-emit / C01.connector-amount -----------------------------------------
 	c.checkSolLock()
-	c.checkConnectorAmount()
+	c.checkConnectorAmount("C01.connector-amount")
 }
 
 type mintSite struct {
@@ -441,6 +481,59 @@ func (c *Ctx) checkEventAtomic(rule string, f *ssa.Function) {
 	})
 	r.Check(okCtx && okCommit && nCommit > 0, rule, fname(f), c.pos(handleCall), "handler runs on the cached context; commit() only under err == nil",
 		sprintf("event application is not atomic: handler on cached ctx=%v, commit sites=%d, all guarded by err==nil=%v", okCtx, nCommit, okCommit))
+}
+
+// checkRecoverAtomic: a function of block processing that swallows panics (a deferred recover) must run what it
+// protects on a cached context: each of its callers hands it the context half of a CacheContext() pair.
+// Otherwise the writes made before the panic are committed with the block although the operation was
+// abandoned half-way.
+func (c *Ctx) checkRecoverAtomic(rule string) {
+	p, r := c.P, c.R
+	roots := c.Roots()
+	blockReach := p.Reach(roots.Block...)
+	n := 0
+	for _, g := range sortedFuncs(blockReach) {
+		if p.L.IsGenerated(g.Pos()) || !p.IsModule(g) || g.Parent() != nil || len(hasRecoverBoundary(g)) == 0 {
+			continue
+		}
+		// does it write at all (directly or through callees)?
+		writes := false
+		for h := range p.ReachCS(g) {
+			for _, op := range p.StoreOps(h) {
+				if op.IsWrite() {
+					writes = true
+				}
+			}
+			if len(p.BankOps(h)) > 0 {
+				writes = true
+			}
+		}
+		if !writes {
+			continue
+		}
+		for _, e := range p.In[g] {
+			if !blockReach[e.Caller] || e.Caller == g {
+				continue
+			}
+			n++
+			ok := false
+			for _, a := range e.Site.Common().Args {
+				if nm := ana.NamedOf(a.Type()); nm == nil || nm.Obj().Name() != "Context" {
+					continue
+				}
+				if ex, isEx := a.(*ssa.Extract); isEx && ex.Index == 0 {
+					if call, isCall := ex.Tuple.(*ssa.Call); isCall {
+						if d, _ := ana.Describe(&call.Call); d.Name == "CacheContext" {
+							ok = true
+						}
+					}
+				}
+			}
+			r.Check(ok, rule, "recover-atomic:"+fname(g)+"<-"+fname(e.Caller), c.pos(e.Site.(ssa.Instruction)), "the panic-swallowing function runs on a cached context",
+				fname(g)+" recovers from panics but is run on the live block context by "+fname(e.Caller)+": what it wrote before a panic (entries taken from the pool, a consumed nonce) is committed although the operation was abandoned")
+		}
+	}
+	r.Analysed["recover_boundaries_checked"] = n
 }
 
 // checkPayouts: the execution payouts.
